@@ -312,15 +312,50 @@ Definition HTPMerge (s : st) (i j : nat) : res (st * bool) :=
     end
   else Ok (s3, true).
 
-(* bool DmxBuffer::SetFromString(const string &input), restricted to well-formed input: the text is
-   the decimal rendering "v0,v1,..." of `vals` (each 0..255; the empty list is the empty string).
-   For such input atoi() returns v_k.  (Malformed text is property C20's business.) *)
-Definition SetFromString (s : st) (i : nat) (vals : list N) : res (st * bool) :=
+(* ---- text -> slot values, as SetFromString does it: StringSplit(input, &tokens, ",") and, per token,
+   m_data[i] = atoi(token) (an int stored into a uint8_t).
+   StringSplit cuts at every ',' and always pushes the last (possibly empty) token.
+   atoi = (int) strtol(s, NULL, 10) (glibc): skips isspace characters, takes one optional sign, reads
+   decimal digits up to the first other character, saturates at LONG_MIN / LONG_MAX; the int is then
+   truncated to its low 8 bits by the store.  Characters are byte values (list N). *)
+Fixpoint split_acc (cur : list N) (l : list N) : list (list N) :=
+  match l with
+  | [] => [rev cur]
+  | c :: r => if c =? 44 then rev cur :: split_acc [] r else split_acc (c :: cur) r
+  end.
+Definition split_commas (l : list N) : list (list N) := split_acc [] l.
+
+Definition is_space (c : N) : bool := ((9 <=? c) && (c <=? 13)) || (c =? 32).
+Definition is_digit (c : N) : bool := (48 <=? c) && (c <=? 57).
+Fixpoint skip_ws (l : list N) : list N :=
+  match l with
+  | c :: r => if is_space c then skip_ws r else l
+  | [] => []
+  end.
+Fixpoint digits_val (acc : N) (l : list N) : N :=
+  match l with
+  | c :: r => if is_digit c then digits_val (acc * 10 + (c - 48)) r else acc
+  | [] => acc
+  end.
+Definition LONG_MAX : N := 9223372036854775807.
+Definition atoi8 (tok : list N) : N :=
+  match skip_ws tok with
+  | 45 :: r => (256 - (N.min (digits_val 0 r) (LONG_MAX + 1)) mod 256) mod 256     (* '-' *)
+  | 43 :: r => (N.min (digits_val 0 r) LONG_MAX) mod 256                             (* '+' *)
+  | l => (N.min (digits_val 0 l) LONG_MAX) mod 256
+  end.
+(* the values SetFromString stores (before the cut at 512): the empty text gives no slot at all *)
+Definition sfs_values (text : list N) : list N :=
+  match text with [] => [] | _ => map atoi8 (split_commas text) end.
+
+(* bool DmxBuffer::SetFromString(const string &input); input = the characters of the text *)
+Definition SetFromString (s : st) (i : nat) (text : list N) : res (st * bool) :=
   s2 <- own_block s i ;;
-  match vals with
-  | [] => s3 <- set_len s2 i 0 ;; Ok (s3, true)
+  match text with
+  | [] => s3 <- set_len s2 i 0 ;; Ok (s3, true)              (* if (input.empty()) *)
   | _ =>
-    let w := take DMX_UNIVERSE_SIZE vals in
+    (* the loop stops at DMX_UNIVERSE_SIZE tokens *)
+    let w := take DMX_UNIVERSE_SIZE (sfs_values text) in
     b2 <- getb s2 i ;;
     match m_blk b2 with
     | None => Hz NullDeref
@@ -345,15 +380,18 @@ Inductive op :=
 | ONew (i : nat)                                  (* new (slot i) DmxBuffer() *)
 | OCopyNew (i j : nat)                            (* new (slot i) DmxBuffer(pool[j]) *)
 | ONewData (i : nat) (p : xptr) (n : N)           (* new (slot i) DmxBuffer(data, length) *)
+| ONewStr (i : nat) (l : list N)                  (* new (slot i) DmxBuffer(std::string) *)
 | ODestroy (i : nat)                              (* pool[i].~DmxBuffer() *)
 | OAssign (i j : nat)                             (* pool[i] = pool[j] *)
 | OSetBuf (i j : nat)                             (* pool[i].Set(pool[j]) *)
 | OSetPtr (i : nat) (p : xptr) (n : N)            (* pool[i].Set(data, length) *)
 | OSetStr (i : nat) (l : list N)                  (* pool[i].Set(std::string) *)
-| OSetFromString (i : nat) (vals : list N)        (* pool[i].SetFromString("v0,v1,...") *)
+| OSetFromString (i : nat) (text : list N)        (* pool[i].SetFromString(text) *)
 | OSetRangeToValue (i : nat) (off v n : N)
 | OSetRange (i : nat) (off : N) (p : xptr) (n : N)
 | OSetChannel (i : nat) (ch v : N)
+| OSetRaw (i j : nat) (k n : N)                   (* pool[i].Set(pool[j].GetRaw() + k, n) *)
+| OSetRangeRaw (i : nat) (off : N) (j : nat) (k n : N)  (* pool[i].SetRange(off, pool[j].GetRaw() + k, n) *)
 | OHTPMerge (i j : nat)
 | OBlackout (i : nat)
 | OReset (i : nat).
@@ -364,6 +402,10 @@ Definition is_live (s : st) (i : nat) : bool :=
   match nth_error (pool s) i with Some (Some _) => true | _ => false end.
 Definition is_raw (s : st) (i : nat) : bool :=
   match nth_error (pool s) i with Some None => true | _ => false end.
+
+(* GetRaw() + k  (k = 0 when the buffer has no storage: GetRaw() is NULL) *)
+Definition raw_ptr (o : buf) (k : N) : ptr :=
+  match m_blk o with None => PNull | Some id => PBlk id k end.
 
 Definition rb (r : res (st * bool)) : res (st * ret) := x <- r ;; Ok (fst x, RBool (snd x)).
 Definition ru (r : res st) : res (st * ret) := x <- r ;; Ok (x, RUnit).
@@ -385,6 +427,9 @@ Definition cstep (s : st) (o : op) : res (st * ret) :=
   | ONewData i p n =>
     if is_raw s i then r <- Set_ptr (setb s i default_buf) i (ptr_of_x p) n ;; Ok (fst r, RUnit)
     else Ok (s, RSkip)
+  | ONewStr i l =>
+    if is_raw s i then r <- Set_ptr (setb s i default_buf) i (PExt l) (len l) ;; Ok (fst r, RUnit)
+    else Ok (s, RSkip)
   | ODestroy i =>
     if is_live s i then
       s1 <- CleanupMemory s i ;; Ok ({| heap := heap s1; pool := upd (pool s1) i None |}, RUnit)
@@ -399,6 +444,19 @@ Definition cstep (s : st) (o : op) : res (st * ret) :=
   | OSetRange i off p n =>
     if is_live s i then rb (SetRange s i off (ptr_of_x p) n) else Ok (s, RSkip)
   | OSetChannel i ch v => if is_live s i then ru (SetChannel s i ch v) else Ok (s, RSkip)
+  (* a pointer into ANOTHER buffer's storage (plugins do m_tx_buffer.SetRange(0, b.GetRaw(), b.Size())).
+     Caller contract, checked like the lifetime preconditions: a different object, and the n bytes at
+     GetRaw() + k are valid data of pool[j], i.e. k + n <= pool[j].Size(). *)
+  | OSetRaw i j k n =>
+    if is_live s i && is_live s j && negb (Nat.eqb i j) then
+      o <- getb s j ;;
+      if k + n <=? m_len o then rb (Set_ptr s i (raw_ptr o k) n) else Ok (s, RSkip)
+    else Ok (s, RSkip)
+  | OSetRangeRaw i off j k n =>
+    if is_live s i && is_live s j && negb (Nat.eqb i j) then
+      o <- getb s j ;;
+      if k + n <=? m_len o then rb (SetRange s i off (raw_ptr o k) n) else Ok (s, RSkip)
+    else Ok (s, RSkip)
   | OHTPMerge i j => if is_live s i && is_live s j then rb (HTPMerge s i j) else Ok (s, RSkip)
   | OBlackout i => if is_live s i then rb (Blackout s i) else Ok (s, RSkip)
   | OReset i => if is_live s i then ru (Reset s i) else Ok (s, RSkip)
@@ -421,6 +479,16 @@ End WithFresh.
 
 Definition init_st (slots : nat) : st := {| heap := []; pool := repeat None slots |}.
 
+(* a history with its return values *)
+Fixpoint ctrace (fresh : list N) (s : st) (ops : list op) : res (st * list ret) :=
+  match ops with
+  | [] => Ok (s, [])
+  | o :: r => x <- cstep fresh s o ;; y <- ctrace fresh (fst x) r ;; Ok (fst y, snd x :: snd y)
+  end.
+
+(* run every destructor of the pool *)
+Definition destroy_all (slots : nat) : list op := map ODestroy (seq 0 slots).
+
 (* ---- const member functions (observations) *)
 Inductive query :=
 | QSize (i : nat)
@@ -429,7 +497,8 @@ Inductive query :=
 | QGetRange (i : nat) (slot n : N)          (* void GetRange(slot, data, length), *length = n *)
 | QGetStr (i : nat)                         (* std::string Get() *)
 | QToString (i : nat)
-| QEq (i j : nat).                          (* operator== *)
+| QEq (i j : nat)                           (* operator== *)
+| QNe (i j : nat).                          (* operator!= : the negation of operator== *)
 
 Inductive ans := ASkip | ANum (n : N) | ABytes (l : list N) | ABool (b : bool).
 
@@ -458,6 +527,23 @@ Fixpoint list_eqb (a b : list N) : bool :=
   | x :: a', y :: b' => (x =? y) && list_eqb a' b'
   | _, _ => false
   end.
+
+(* bool DmxBuffer::operator==(const DmxBuffer &other) const *)
+Definition c_eq (s : st) (i j : nat) : res ans :=
+    if is_live s i && is_live s j then
+      a <- getb s i ;; b <- getb s j ;;
+      if m_len a =? m_len b then
+        if same_blk (m_blk a) (m_blk b) then Ok (ABool true)
+        else if m_len a =? 0 then Ok (ABool true)               (* memcmp(.., .., 0) *)
+        else match m_blk a, m_blk b with
+             | Some ia, Some ib =>
+               da <- pread s (PBlk ia 0) (m_len a) ;;
+               db <- pread s (PBlk ib 0) (m_len a) ;;
+               Ok (ABool (list_eqb da db))
+             | _, _ => Hz NullDeref
+             end
+      else Ok (ABool false)
+    else Ok ASkip.
 
 Definition cquery (s : st) (q : query) : res ans :=
   match q with
@@ -505,21 +591,8 @@ Definition cquery (s : st) (q : query) : res ans :=
       | None => Ok (ABytes [])
       end
     else Ok ASkip
-  | QEq i j =>
-    if is_live s i && is_live s j then
-      a <- getb s i ;; b <- getb s j ;;
-      if m_len a =? m_len b then
-        if same_blk (m_blk a) (m_blk b) then Ok (ABool true)
-        else if m_len a =? 0 then Ok (ABool true)               (* memcmp(.., .., 0) *)
-        else match m_blk a, m_blk b with
-             | Some ia, Some ib =>
-               da <- pread s (PBlk ia 0) (m_len a) ;;
-               db <- pread s (PBlk ib 0) (m_len a) ;;
-               Ok (ABool (list_eqb da db))
-             | _, _ => Hz NullDeref
-             end
-      else Ok (ABool false)
-    else Ok ASkip
+  | QEq i j => c_eq s i j
+  | QNe i j => a <- c_eq s i j ;; Ok (match a with ABool b => ABool (negb b) | x => x end)
   end.
 
 (* internal observables for the correspondence: (block id, cow flag, refcount) of a live buffer *)
